@@ -582,6 +582,10 @@ def gen_peer(rng, transport, force=False):
         msgs.insert(rng.randrange(len(msgs) + 1), '<data>%s</data>' % (unit * (rng.randint(40000, 400000) // len(unit.encode()))))
         delay = rng.choice([0, 20, 50])
     case = dict(kind='peer', transport=transport, base=base, msgs=msgs, reader_delay_ms=delay)
+    if base == 0 and rng.random() < 0.5:
+        # the server offers base:1.1, the application withdrew it from the client capabilities before connect: the hellos
+        # negotiate 1.0 and every frame must be an end-of-message frame
+        case['client_drop11'] = True
     if transport == 'ssh' and (force or rng.random() < 0.6):
         # a peer that grants a small window and small packets: Channel.send accepts less than it is given, at offsets
         # that are no multiple of any buffer size of the client
@@ -725,9 +729,10 @@ def peers_level(ctx):
         for k in range(per[transport]):
             if too_many(ctx): break
             case = gen_peer(rng, transport, force=(k < 2))        # the first two of each transport: a large message, and on SSH a small window
+            if k == 1: case['base'] = 0; case['client_drop11'] = True      # ... the second one on a session the application pinned to base:1.0
             obs, probs, _ = check_peer(ctx, case)
             n += 1
-            ctx.count({k: case.get(k) for k in ('kind', 'transport', 'base', 'msgs', 'reader_delay_ms', 'ssh_window')}, nontrivial=True)
+            ctx.count({k: case.get(k) for k in ('kind', 'transport', 'base', 'msgs', 'reader_delay_ms', 'ssh_window', 'client_drop11')}, nontrivial=True)
             ctx.hist('peer_transport', '%s/%s' % (transport, '1.1' if case['base'] else '1.0'))
             w = obs.get('writes', [])
             ctx.hist('peer_short_writes', 'none' if not any(x < l for _, l, x in w) else ('1-9' if sum(1 for _, l, x in w if x < l) < 10 else '10+'))
